@@ -139,7 +139,8 @@ def gen(n, seed):
             continue
         d = os.path.join(S, mid)
         os.makedirs(d)
-        open(os.path.join(d, "patch.diff"), "w").write(sh("git -C %s diff" % wt).stdout)
+        # bytes, not text: files with CRLF line endings (wang_landau.py) must keep them in the patch
+        open(os.path.join(d, "patch.diff"), "wb").write(subprocess.run("git -C %s diff" % wt, shell=True, stdout=subprocess.PIPE).stdout)
         json.dump({"property": prop, "file": rel, "function": fn, "line": line, "kind": kind, "what": what, "suite": summ}, open(os.path.join(d, "meta.json"), "w"), indent=1)
         sh("git -C %s checkout -- ." % wt)
         made += 1
